@@ -140,3 +140,25 @@ class Presence:
                         out.append((k, node, (name,) + chain))
         self._req_cache[name] = out
         return out
+
+
+def success_atom(atom, R=None) -> bool:
+    """a positive-polarity test that implies `success` is present and true:
+    fp["success"] / fp.get("success"[, falsy]) with fp resolving to a
+    fit-properties object (aliases resolved through R)"""
+    n = atom.node
+    recv = None
+    if isinstance(n, ast.Subscript) and const_str(n.slice) == "success":
+        recv = n.value
+    elif isinstance(n, ast.Call) and isinstance(n.func, ast.Attribute) and \
+            n.func.attr == "get" and n.args and const_str(
+                n.args[0]) == "success":
+        if len(n.args) > 1 and not (isinstance(n.args[1], ast.Constant)
+                                    and not n.args[1].value):
+            return False
+        recv = n.func.value
+    if recv is None:
+        return False
+    t = R.text(recv) if R is not None and hasattr(recv, "_parent") else \
+        norm(recv)
+    return t.endswith("fit_properties")
